@@ -145,6 +145,47 @@ Intended(m) ==
      ELSE Some([frame_map |-> [id \in fids |-> FM(FirstWith(m.frames, id))],
                 frame_map_with_key |-> [k \in keys |-> FM(FirstKeyed(k))]])
 
+\* ---------------------------------------------------------------- what the statement leaves open
+\* C11 says "ordered by sequence number" (the order among EQUAL numbers is not stated), fixes "the first definition wins" for duplicated
+\* frame and PDU ids only (not for signal / coding ids), and quantifies over "the supported type vocabulary" (a coding with an unsupported
+\* base data type, a signal whose coding does not exist, the standard name S_FLOA16 that has no argument type: skipping is what the code
+\* does, refusing the load would be as good).  Accept(m) is the set of results the statement allows for model m; Intended(m) - what the
+\* code and the loader machine do - is one of them (theorem IntendedAccepted in MCFibex).
+SortedBySeqP(xs, rev) ==   \* ties in document order, or (rev) in reverse document order: with at most two tied entries these are all orders
+  LET n == Len(xs)
+      before(j, i) == xs[j][1] < xs[i][1] \/ (xs[j][1] = xs[i][1] /\ (IF rev THEN j > i ELSE j < i))
+      rank(i) == Cardinality({j \in 1..n : before(j, i)}) + 1
+  IN [k \in 1..n |-> xs[CHOOSE i \in 1..n : rank(i) = k][2]]
+PickWith(seq, key, first) == LET idx == {i \in 1..Len(seq) : seq[i][1] = key} IN
+                             IF idx = {} THEN None ELSE Some(seq[CHOOSE i \in idx : \A j \in idx : IF first THEN i <= j ELSE j <= i][2])
+SigTypeP(r, signals, codings, sf, cf) ==
+  IF IsStdName(r) THEN StdSignal(r)
+  ELSE LET c == PickWith(signals, r, sf) IN
+       IF c = None THEN None
+       ELSE LET b == PickWith(codings, c[1], cf) IN IF b = None THEN None ELSE BaseType(b[1])
+IntendedPduP(p, m, rev, sf, cf) ==
+  [description |-> p.desc,
+   signal_types |-> LET rs == SortedBySeqP(p.sigs, rev)  ts == SelectSeq([i \in 1..Len(rs) |-> SigTypeP(rs[i], m.signals, m.codings, sf, cf)], IsSome) IN [i \in 1..Len(ts) |-> ts[i][1]]]
+IntendedP(m, rev, sf, cf) ==
+  LET pids == {m.pdus[i].id : i \in 1..Len(m.pdus)}
+      dangling == \E i \in 1..Len(m.frames) : \E j \in 1..Len(m.frames[i].refs) : m.frames[i].refs[j][2] \notin pids
+      FM(f) == [short_name |-> f.short_name, app |-> f.app, ctx |-> f.ctx, mtype |-> f.mtype, minfo |-> f.minfo,
+                pdus |-> LET rs == SortedBySeqP(f.refs, rev) IN [k \in 1..Len(rs) |-> IntendedPduP(FirstWith(m.pdus, rs[k]), m, rev, sf, cf)]]
+      fids == {m.frames[i].id : i \in 1..Len(m.frames)}
+      keyedFrames == SelectSeq(m.frames, LAMBDA f : IsSome(f.ctx) /\ IsSome(f.app))
+      keys == {<<keyedFrames[i].ctx[1], keyedFrames[i].app[1], keyedFrames[i].id>> : i \in 1..Len(keyedFrames)}
+      FirstKeyed(k) == keyedFrames[CHOOSE i \in 1..Len(keyedFrames) : <<keyedFrames[i].ctx[1], keyedFrames[i].app[1], keyedFrames[i].id>> = k
+                                     /\ \A j \in 1..(i-1) : <<keyedFrames[j].ctx[1], keyedFrames[j].app[1], keyedFrames[j].id>> # k]
+  IN IF dangling THEN None
+     ELSE Some([frame_map |-> [id \in fids |-> FM(FirstWith(m.frames, id))],
+                frame_map_with_key |-> [k \in keys |-> FM(FirstKeyed(k))]])
+\* a signal reference that leaves the supported vocabulary (under some resolution of duplicated ids)
+OutOfVocabulary(m) ==
+  \E i \in 1..Len(m.pdus) : \E j \in 1..Len(m.pdus[i].sigs) : LET r == m.pdus[i].sigs[j][2] IN
+     \/ r = "S_FLOA16"
+     \/ ~IsStdName(r) /\ \E sf \in BOOLEAN, cf \in BOOLEAN : PickWith(m.signals, r, sf) # None /\ SigTypeP(r, m.signals, m.codings, sf, cf) = None
+Accept(m) == {IntendedP(m, rev, sf, cf) : rev \in BOOLEAN, sf \in BOOLEAN, cf \in BOOLEAN} \cup (IF OutOfVocabulary(m) THEN {None} ELSE {})
+
 \* ---------------------------------------------------------------- damage (token boundaries)
 AllToks(files) == Cat(files)
 \* cut the document list after `c` tokens in total (later files disappear), or delete token number `c`
